@@ -2,7 +2,7 @@
 From Coq Require Import List NArith Arith Bool.
 Import ListNotations.
 From Chiri Require Import Base.Bytes Base.Res Model.Finders Model.ListRender Spec.ListSpec
-     Proofs.C15Proofs Proofs.ListProofs.
+     Proofs.C15Proofs Proofs.ListProofs Proofs.JsonProofs.
 
 (** The (uncoloured) item of a region [a, b) is exactly the specification of Spec/ListSpec.v: a
     `_start` marker line indented by the line-number column (9) plus the tab-expanded width of the
@@ -45,6 +45,13 @@ Theorem C16_json_block_is_uncoloured_pretty :
     uncolored x = y.
 Proof. exact build_item_uncolored. Qed.
 Print Assumptions C16_json_block_is_uncoloured_pretty.
+
+(** The JSON form is valid JSON of the documented shape: a reader for exactly that shape (an array of
+    objects with the keys line_range (two numbers), annotated_code_block (a string literal with the
+    standard escapes) and current_status ("Ready" or "Pending"), in this order) recovers every item. *)
+Theorem C16_json_round_trip : forall items, json_read_list (json_list items) = Some items.
+Proof. exact json_list_round_trip. Qed.
+Print Assumptions C16_json_round_trip.
 
 (** Fixed-width line-number column (for line numbers below 10^7). *)
 Theorem C16_line_number_column_width :
